@@ -200,6 +200,20 @@ PROPS = {
         "stubs": ["fastrand::i64(lo..hi) returns r with lo <= r < hi; fastrand::f64() returns r in [0,1)", "Mutex::lock/guard deref = one abstract cell", "format!/Arguments are opaque events (template constant compared)"],
         "assumptions": ["rustc nightly MIR text = the code that is compiled", "mirsym's MIR subset semantics (/verif/mirsym/sym.py)", "z3 5.1 and cvc5 1.0.3 (every query on both; disagreement = inconclusive)"],
     },
+    "C20": {
+        "engines": ["E2 mirsym+z3/cvc5"],
+        "e2": True,
+        "functions": [
+            ("<RuleDest as CssDestination>::push_item", "output/cssdest.rs", r"impl CssDestination for RuleDest"),
+            ("RuleDest::commit_rule", "output/cssdest.rs", r"fn commit_rule\(&mut self\)"),
+            ("RuleDest / AtRuleDest / AtMediaDest :: start_atmedia, start_atrule", "output/cssdest.rs", r"fn start_atmedia\(&mut self, args: MediaArgs\) -> AtMediaDest<'_> \{"),
+        ],
+        "bounds": {"quick": "one push_item / commit_rule / start_* call from an ARBITRARY destination state and for any item (the item kind is symbolic), every outcome of the parent's answer"},
+        "outside": "how the selector copy is built and printed (selector trees: C19), merging of nested @media queries (rsass nests them), @at-root (Scope/selector context), "
+                   "the commit performed by the Drop impls (C21 kernel), anything that needs a whole stylesheet",
+        "stubs": ["parent.push_item / commit_rule: Ok or Err", "AtRule -> BodyItem conversion: Ok or Err", "Rule::new / SelectorSet::clone / mem::swap are tracked by identity"],
+        "assumptions": ["rustc nightly MIR text = the code that is compiled", "mirsym's MIR subset semantics (/verif/mirsym/sym.py)", "z3 5.1 and cvc5 1.0.3 (every query on both)"],
+    },
     "C21": {
         "engines": ["E2 mirsym+z3/cvc5"],
         "e2": True,
